@@ -20,6 +20,9 @@ type ProbCase struct {
 	Mode string `json:"mode,omitempty"`
 	CP   bool   `json:"cp,omitempty"`
 	AMO  bool   `json:"amo,omitempty"`
+	// NbMax < 0: configuration "tight limit" (the learned-constraint database limit follows its size,
+	// so the real code reduces at every opportunity of its own schedule); 0 = default limit
+	NbMax int `json:"nbmax,omitempty"`
 }
 
 type probObs struct {
@@ -169,8 +172,13 @@ var currentOpts choice.Opts
 
 // exploreProb is the shared Exec skeleton: one execution per choice list.
 func exploreProb(r *core.Rec, dev int, sample interface{}, tag string, run func(choices []int) []core.Failure) []core.Failure {
+	return exploreProbCfg(r, dev, 0, sample, tag, run)
+}
+
+func exploreProbCfg(r *core.Rec, dev, nbMax int, sample interface{}, tag string, run func(choices []int) []core.Failure) []core.Failure {
 	var fails []core.Failure
 	opts := choice.Std(dev)
+	opts.NbMax = nbMax
 	opts.Stop = r.Expired
 	currentOpts = opts
 	st := choice.Explore(opts, r.ReplayChoices, func(ctl *choice.Ctl, choices []int) bool {
